@@ -26,8 +26,20 @@ def _work(rng):
         case = cases[i]
         try:
             nontrivial, fp, v = fn(case)
-        except Exception:
-            errors.append(f"case {i}: " + traceback.format_exc()[-600:])
+        except Exception as ex:
+            # an exception escaping check_case: raised inside fairlearn (innermost frame in the repository) = the code under test failed on a
+            # valid case -> violation; raised in the harness itself -> checker error (never reported as a violation)
+            tb = traceback.extract_tb(ex.__traceback__)
+            inner = tb[-1].filename if tb else ""
+            in_repo = "/fairlearn/" in inner and "/verif/" not in inner
+            text = traceback.format_exc()[-700:]
+            if in_repo:
+                key = f"{_JOB.get('name', 'standin')}:raises:{type(ex).__name__}:{os.path.basename(inner)}:{tb[-1].name}"
+                if key not in viols and len(viols) < 20:
+                    viols[key] = (key, f"fairlearn raised {type(ex).__name__} on a valid case of the stand-in: {str(ex)[:200]}", {"case": repr(case)[:1500], "traceback": text})
+                ev += 1
+                continue
+            errors.append(f"case {i}: " + text)
             if len(errors) > 3:
                 break
             continue
@@ -47,7 +59,7 @@ def run_cases(rep, name, rule, bound, cases, check_case, exhaustive=False, worke
     if not cases:
         return
     workers = workers or int(os.environ.get("VF_WORKERS", "0") or 0) or min(16, os.cpu_count() or 4)
-    _JOB["cases"], _JOB["fn"] = cases, check_case
+    _JOB["cases"], _JOB["fn"], _JOB["name"] = cases, check_case, f"{rep.pid}:{name}"
     n = len(cases)
     if serial or n < 32 or workers == 1:
         results = [_work((0, n))]
